@@ -37,7 +37,22 @@ func naiveNul(t []string) string    { return strings.Join(t, "\x00") }
 func naiveComma(t []string) string  { return strings.Join(t, ",") }
 func naiveQuoted(t []string) string { return fmt.Sprintf("%v", t) }
 
-var naive = []func([]string) string{naiveDash, naiveEscDash, naiveConcat, naiveNul, naiveComma, naiveQuoted}
+var naive = []func([]string) string{naiveDash, naiveEscDash, naiveConcat, naiveNul, naiveComma, naiveQuoted, naiveRunes, naiveLower}
+
+// naiveRunes: an encoding that walks the labels rune by rune (invalid UTF-8
+// bytes all become U+FFFD); naiveLower: one that folds case.
+func naiveRunes(t []string) string {
+	var b strings.Builder
+	for _, s := range t {
+		for _, r := range s {
+			b.WriteRune(r)
+		}
+		b.WriteString("\x00")
+	}
+	return b.String()
+}
+
+func naiveLower(t []string) string { return strings.ToLower(strings.Join(t, "\x00")) }
 
 func keys(n int) []string {
 	k := make([]string, n)
@@ -278,7 +293,46 @@ func TestC08(t *testing.T) {
 			}
 		}
 	}
-	r.Set("exhaustive_universe", "arity 1-2, components of length <=3 over {'-','\\\\','a'}: all tuples in one metric (identity bijection => all ordered pairs), plus per-pair op sequences for every pair colliding under a naive encoding")
+	// the same over raw bytes: labels are byte strings taken from log lines, not
+	// necessarily valid UTF-8 (Latin-1 logs), and differ in case only
+	bytesAlpha := words([]string{"\xe9", "\xe8", "\xc3", "\xa9", "\xff", "\x80", "e", "E", "é"}, 2)
+	{ // "\xc3"+"\xa9" and "é" are the same string
+		seen := map[string]bool{}
+		var uniq []string
+		for _, w := range bytesAlpha {
+			if !seen[w] {
+				seen[w] = true
+				uniq = append(uniq, w)
+			}
+		}
+		bytesAlpha = uniq
+	}
+	for arity := 1; arity <= 2; arity++ {
+		ts := tuples(bytesAlpha, arity)
+		bulk(r, arity, ts)
+		r.Eval(len(ts))
+		r.Count("byte_alphabet_tuples", len(ts))
+	}
+	for _, f := range []func([]string) string{naiveRunes, naiveLower} {
+		ts := tuples(bytesAlpha, 1)
+		groups := map[string][][]string{}
+		for _, tt := range ts {
+			groups[f(tt)] = append(groups[f(tt)], tt)
+		}
+		for _, g := range groups {
+			for i := 0; i < len(g) && i < 4; i++ {
+				for j := 0; j < len(g) && j < 4; j++ {
+					if i != j && r.Violations() <= 20 {
+						pairOps(r, 1, g[i], g[j])
+						r.Eval(1)
+						r.Count("pairs_suspicious", 1)
+						r.Distinct(inj(g[i]) + "|" + inj(g[j]))
+					}
+				}
+			}
+		}
+	}
+	r.Set("exhaustive_universe", "arity 1-2, components of length <=3 over {'-','\\\\','a'} and of length <=2 over raw bytes {E9,E8,C3,A9,FF,80,'e','E','é'}: all tuples in one metric (identity bijection => all ordered pairs), plus per-pair op sequences for every pair colliding under a naive encoding")
 	r.Exhaustive(false)
 
 	// arity 3-4 and the wider adversarial alphabet: random pairs biased to collisions
